@@ -358,7 +358,7 @@ def run(ctx):
         if os.path.isdir(corpus_dir):
             for fn in sorted(os.listdir(corpus_dir)):
                 corpus_case(ctx, drv, json.load(open(os.path.join(corpus_dir, fn)))['scenario'])
-        n = 60 if ctx.tier == 'quick' else 1500
+        n = 150 if ctx.tier == 'quick' else 1500
         for i in range(n):
             one_repo(ctx, drv, odd=(i % 5 == 4))
     finally:
